@@ -135,6 +135,21 @@ CLAIMS['C13'] = (
     'the range did not produce, or only for larger sets than the project builds, is outside it',
     'DESIGN.md §6 C13')
 
+CLAIMS['C19'] = (
+    'exploration',
+    'bounded exhaustive enumeration of submodule inclusion trees and of argument declarations x command lines x spellings on the real configure/regenerate, built with make/refninja',
+    '(a) every tree of submodule inclusions with depth <=3 and branching <=2 (one child reached through ../sibling, '
+    'an export-only sibling included from every inner node) is generated for build.bfg and options.bfg and '
+    'configured on both backends; each script probes every other script\'s global/function/class names before '
+    'and after each submodule() call, verifies the exports it receives (and that export() at root level raises), '
+    'and declares one input and two outputs whose resolved roots/suffixes are compared with the model; the build '
+    'is run and the created files and read inputs compared. (b) every argument declaration over action x type x '
+    'default x choices x dest x name and every command line of <=2 occurrences in every plain/--x- spelling: '
+    'identical namespaces; explicit and make-triggered regenerations see the configure-time namespace.',
+    'one known finding (build_step outputs in submodules, pinned by the suite) is listed in '
+    'findings/known_findings.jsonl with its exact key',
+    'DESIGN.md §6 C19')
+
 # --- more claims are appended above this line ---
 NOT_YET = 'check not built yet in this session (see DESIGN.md §10 build order); not claimed until it is'
 NOT_APPLICABLE = {}
